@@ -75,6 +75,8 @@ def correspond(ctx, C):
         breach, _ = compare(r["case"], go, m)
         if breach:
             (ties if breach.get("tie") else viol).append((r["case"], breach))
+    npf, pfbad = S.pathfuncs_tie(ctx, C, ("extract", "strip"))
+    ties = ties + pfbad
     out = viol[:3]
     if not out and ties:
         case, info = ties[0]
@@ -82,4 +84,5 @@ def correspond(ctx, C):
     cov = st.coverage(RULE)
     cov["documents_compared_rule_by_rule"] = compared
     cov["tie_mismatches"] = len(ties)
+    cov["string_function_cases"] = npf
     return {"coverage": cov, "violations": out, "known": []}
